@@ -864,8 +864,108 @@ pub fn scen_multi(ctx: &Ctx) -> i32 {
         }
         seqs.push(Seq { kt: kts[0], params: ps[0], ops });
     }
-    let b = run_batch(ctx, seqs, |_| RunOpts { cmp_every: Some(0), cmp_end: true, ..Default::default() }, &["api", "oracle", "bytes", "open"], "multi");
+    let mut b = run_batch(ctx, seqs, |_| RunOpts { cmp_every: Some(0), cmp_end: true, ..Default::default() }, &["api", "oracle", "bytes", "open"], "multi");
+    names_check(ctx, &mut b);
     finish(ctx, "multi", &b, vec![])
+}
+
+/// C11, file naming: maps whose names share prefixes / contain dots / differ only after a dot must each
+/// have their own three files `<name>.{key,val,htx}`, and updating one must not touch the files of the
+/// others (judged without the model: per-map BTreeMap oracles and file hashes).
+fn names_check(ctx: &Ctx, b: &mut Batch) {
+    let mut rng = Rng::new(ctx.seed ^ fnv("names"));
+    let name_sets: Vec<Vec<&str>> = vec![
+        vec!["users.v1", "users.v2", "users"],
+        vec!["a", "a.b", "a.b.c", "ab"],
+        vec!["data.key", "data.val", "data"],
+        vec!["x-1", "x_1", "x 1", "x.1"],
+    ];
+    for (si, names) in name_sets.iter().enumerate() {
+        let dir = fresh_dir(&ctx.scratch, &format!("names_{}", si));
+        let mut imp = crate::imp::Impl::new(&dir);
+        let kts: Vec<Kt> = names.iter().map(|_| *rng.pick(&[Kt::Bytes, Kt::Str])).collect();
+        let mut oracles: Vec<std::collections::BTreeMap<Vec<u8>, Vec<u8>>> = vec![Default::default(); names.len()];
+        let mut text = String::new();
+        let mut problem: Option<String> = None;
+        let r = std::panic::catch_unwind(std::panic::AssertUnwindSafe(|| {
+            for (i, n) in names.iter().enumerate() {
+                imp.names.insert(i, n.to_string());
+                if let Err(e) = imp.open(i, kts[i], &Params::buckets(8)) {
+                    return Some(format!("map {:?} does not open: {:?}", n, e.kind()));
+                }
+            }
+            let hash_files = |dir: &Path, stem: &str| -> Vec<(u64, u64)> {
+                ["key", "val", "htx"].iter().map(|e| {
+                    let d = std::fs::read(dir.join(format!("{}.{}", stem, e))).unwrap_or_default();
+                    (d.len() as u64, fnv(&hex(&d)))
+                }).collect()
+            };
+            for step in 0..60 {
+                let i = rng.below(names.len() as u64) as usize;
+                let _ = imp.open(i, kts[i], &Params::buckets(8));
+                let k = format!("key{}", rng.below(12)).into_bytes();
+                let before: Vec<Vec<(u64, u64)>> = names.iter().map(|n| hash_files(&dir, n)).collect();
+                let op = if rng.chance(3, 4) {
+                    let v = B::Pat(rng.below(60) as usize, step);
+                    oracles[i].insert(k.clone(), v.bytes());
+                    Op::Put(B::Hex(k.clone()), v)
+                } else {
+                    oracles[i].remove(&k);
+                    Op::Del(B::Hex(k.clone()))
+                };
+                text.push_str(&format!("# on map {:?}: {}\n", names[i], op.text()));
+                imp.exec(&op);
+                imp.exec(&Op::DbSyncData);
+                for (j, n) in names.iter().enumerate() {
+                    let h = hash_files(&dir, n);
+                    if h.iter().any(|x| x.0 == 0) {
+                        return Some(format!("map {:?} has no file of its own ({}.key/.val/.htx): lengths {:?}", n, n, h.iter().map(|x| x.0).collect::<Vec<_>>()));
+                    }
+                    if j != i && h != before[j] && before[j].iter().all(|x| x.0 > 0) {
+                        return Some(format!("step {}: an update of map {:?} changed the files of map {:?}", step, names[i], n));
+                    }
+                }
+                // every map still holds exactly its own contents
+                for (j, _) in names.iter().enumerate() {
+                    let _ = imp.open(j, kts[j], &Params::buckets(8));
+                    if imp.exec(&Op::Len) != oracles[j].len().to_string() {
+                        return Some(format!("step {}: map {:?} has len {} instead of {}", step, names[j], imp.exec(&Op::Len), oracles[j].len()));
+                    }
+                }
+            }
+            // reopen everything and compare contents
+            imp.close_all();
+            if let Err(e) = imp.reopen_all() {
+                return Some(format!("reopen: {:?}", e.kind()));
+            }
+            for (j, n) in names.iter().enumerate() {
+                let _ = imp.open(j, kts[j], &Params::buckets(8));
+                for (k, v) in oracles[j].iter() {
+                    let g = imp.exec(&Op::Get(B::Hex(k.clone())));
+                    if g != repr_opt(&Some(v.clone())) {
+                        return Some(format!("after reopen: map {:?} get {} = {} but {} was stored", n, hex(k), g, brepr(v)));
+                    }
+                }
+            }
+            imp.close_all();
+            None
+        }));
+        match r {
+            Ok(p) => problem = p,
+            Err(_) => problem = Some("a call panicked".into()),
+        }
+        std::mem::forget(imp);
+        b.sequences += 1;
+        b.ops += 60;
+        if let Some(pr) = problem {
+            if b.failures.len() < 5 {
+                let path = ctx.replays.join(format!("{}-oracle-names{}.txt", ctx.prop, si));
+                let _ = std::fs::write(&path, format!("# property={} facet=oracle (map names {:?} in one directory, key types {:?}, 8 buckets each)\n# {}\n{}", ctx.prop, names, kts.iter().map(|k| k.name()).collect::<Vec<_>>(), pr, text));
+                b.failures.push(Failure { facet: "oracle".into(), replay: path.to_string_lossy().to_string(), detail: format!("maps {:?}: {}", names, pr) });
+            }
+        }
+        let _ = std::fs::remove_dir_all(&dir);
+    }
 }
 
 /// C15: read-only sessions leave the files byte-for-byte unchanged
@@ -899,6 +999,41 @@ pub fn scen_readonly(ctx: &Ctx) -> i32 {
         }
         s.ops.push(Op::Cmp(1));
         seqs.push(s);
+    }
+    // directed: traversals of sparse small tables (the bitmap scan reads in 64-bucket strides near the end
+    // of the table file: a seek past the end would extend the file), incl. empty maps
+    let mut di = 0u64;
+    for n in [16u64, 32, 64, 128, 256, 1024, 2048, 4096] {
+        let mut targets: Vec<Option<u64>> = vec![None];
+        for t in [7u64, 15, 23, 31, 39, 47, 55, 63, n / 2 - 1, n - 9, n - 1, 0] {
+            if t < n {
+                targets.push(Some(t));
+            }
+        }
+        for t in targets {
+            di += 1;
+            let mut r = rng.fork(90_000 + di);
+            let kt = if di % 2 == 0 { Kt::Bytes } else { Kt::Str };
+            let mut ops = Vec::new();
+            if let Some(t) = t {
+                for k in keys_for_bucket(n, t, 1, di) {
+                    ops.push(Op::Put(B::Hex(k), gen_val(&mut r, 0)));
+                }
+                if r.chance(1, 2) && t > 0 {
+                    for k in keys_for_bucket(n, r.below(t), 1, di + 7) {
+                        ops.push(Op::Put(B::Hex(k), gen_val(&mut r, 0)));
+                    }
+                }
+            }
+            ops.push(Op::Cmp(1));
+            for f in 0..6 {
+                ops.push(Op::Iter(f));
+            }
+            ops.push(Op::Len);
+            ops.push(Op::Stats);
+            ops.push(Op::Cmp(1));
+            seqs.push(Seq { kt, params: Params::buckets(n), ops });
+        }
     }
     let b = run_batch(ctx, seqs, |_| RunOpts { cmp_end: false, ro_check: true, ..Default::default() }, &["ro-bytes", "bytes", "api", "oracle", "trace"], "readonly");
     finish(ctx, "readonly", &b, vec![])
@@ -1564,23 +1699,24 @@ pub fn scen_sig(ctx: &Ctx) -> i32 {
     let mut samples: Vec<String> = Vec::new();
     let mut rng = Rng::new(ctx.seed ^ fnv("sig"));
     let Ok(mut d) = Driver::spawn(&ctx.driver) else { return 2 };
-    for a in Kt::ALL {
-        // a map of type `a` with a few entries
-        let base = fresh_dir(&ctx.scratch, &format!("sig_{}", a.name()));
+    for (a, entries) in Kt::ALL.iter().flat_map(|a| [(*a, 3usize), (*a, 0usize)]) {
+        // a map of type `a` with a few entries — and one that was created but never held a record
+        let base = fresh_dir(&ctx.scratch, &format!("sig_{}_{}", a.name(), entries));
+        let mid = a as usize * 2 + if entries == 0 { 1 } else { 0 };
         {
             let mut imp = crate::imp::Impl::new(&base);
             let _ = imp.open(0, a, &Params::buckets(8));
-            d.ask(&format!("m{} open {} 8", a as usize, a.name()));
-            for i in 0..3 {
+            d.ask(&format!("m{} open {} 8", mid, a.name()));
+            for i in 0..entries {
                 let k = gen_key(&mut rng, a, 0);
                 let v = B::Pat(5 + i, i as u64);
                 imp.exec(&Op::Put(k.clone(), v.clone()));
-                d.ask(&format!("m{} put {} {}", a as usize, k.tok(), v.tok()));
+                d.ask(&format!("m{} put {} {}", mid, k.tok(), v.tok()));
             }
             imp.close_all();
         }
         let orig = read_three(&base);
-        let mname = format!("m{}", a as usize);
+        let mname = format!("m{}", mid);
         let mut attempt = |as_kt: Kt, file: &str, pos: usize, val: u8, evaluations: &mut u64, failures: &mut Vec<Failure>, known: &mut Vec<String>, samples: &mut Vec<String>| {
             let dir = fresh_dir(&ctx.scratch, "sig_try");
             let mut files = orig.clone();
@@ -1595,7 +1731,7 @@ pub fn scen_sig(ctx: &Ctx) -> i32 {
             let after = read_three(&dir);
             *evaluations += 1;
             let model = d.ask(&format!("{} openas {} {} {} {}", mname, as_kt.name(), file, pos, val));
-            let desc = format!("create as {}, open as {}{}", a.name(), as_kt.name(), if file == "-" { String::new() } else { format!(", byte {} of the .{} file set to {}", pos, file, val) });
+            let desc = format!("create as {} ({} entries), open as {}{}", a.name(), entries, as_kt.name(), if file == "-" { String::new() } else { format!(", byte {} of the .{} file set to {}", pos, file, val) });
             if samples.len() < 4 {
                 samples.push(format!("{} => {}", desc, got));
             }
@@ -1622,7 +1758,7 @@ pub fn scen_sig(ctx: &Ctx) -> i32 {
                     known.push(obj(&[("key", esc(&key)), ("detail", esc(&p)), ("replay", esc(&path.to_string_lossy()))]));
                 } else if failures.len() < 3 {
                     let path = ctx.replays.join(format!("{}-{}-{:016x}.txt", ctx.prop, facet, fnv(&p)));
-                    let _ = std::fs::write(&path, format!("# property={} facet={}\n# {}\n# replay: create map m0 as `{}` with 3 entries, close; {} ; open as `{}`\n", ctx.prop, facet, p, a.name(), if file == "-" { "no mutation".to_string() } else { format!("set byte {} of m0.{} to {}", pos, file, val) }, as_kt.name()));
+                    let _ = std::fs::write(&path, format!("# property={} facet={}\n# {}\n# replay: create map m0 as `{}` (see above for the number of entries), close; {} ; open as `{}`\n", ctx.prop, facet, p, a.name(), if file == "-" { "no mutation".to_string() } else { format!("set byte {} of m0.{} to {}", pos, file, val) }, as_kt.name()));
                     failures.push(Failure { facet, replay: path.to_string_lossy().to_string(), detail: p });
                 }
             }
